@@ -28,8 +28,13 @@ RULE = ("Streams are built by an independent RFC 8323 framer from message sequen
         "responses, empty, all signalling codes incl. unknown ones) whose option/payload sizes are "
         "steered onto the 12/13/268/269/65804/65805 body-length boundaries, the option delta/length "
         "boundaries and the max-message-size limit (+-1); malformed frames (TKL>8, option nibble 15, "
-        "truncated options, invalid UTF-8, oversize announcements, garbage) are inserted at every "
-        "position (<= 50 % of sessions). Every kind of connection-ending signalling message (critical option in "
+        "truncated options, invalid UTF-8 in requests/responses, oversize announcements, garbage) are inserted at every "
+        "position (<= 50 % of sessions). Signalling messages (7.xx) draw their options from 2/4 and from every number that is "
+        "a string or integer option of requests and responses (3 8 11 15 20 35 39 / 6 7 12 13 14 16 17 23 27 28 60 258) and "
+        "unknown ones, elective and critical, with values that are well-formed and ill-formed for that ordinary format "
+        "(non-UTF-8, leading zero bytes, 9+ byte integers); the full table number x value x {CSM, Ping, Pong, Release, Abort} "
+        "is enumerated as first message and after a CSM. Empty messages are put ahead of the peer's CSM, between and behind "
+        "other messages. Every kind of connection-ending signalling message (critical option in "
         "CSM/Ping/Pong/Release/Abort, unknown 7.xx code, valid Release/Abort) is followed in the same stream by a "
         "Ping / request / response / CSM / second such message, as first message and after a valid CSM, whole and in "
         "every 2-cut. send_message is called with every No-Response value of {absent,0,2,8,16,24,26,127,...} x "
@@ -52,6 +57,13 @@ KNOWN_OPAQUE = [1, 4, 5, 9, 19, 21, 31, 252, 292, 548]
 UNKNOWN = [2, 10, 18, 22, 40, 65, 300, 2049, 65000, 65001]
 DEFAULT_MAX = 1024 * 1024
 N_EXHAUSTIVE = 0
+# Numbers that mean something in requests and responses mean nothing in a signalling message
+# (RFC 8323 5.2).  Elective (even) and critical (odd) ones, with the ordinary format that must NOT
+# be applied to them there.
+SIG_ELECTIVE = [8, 20, 6, 12, 14, 16, 28, 60, 258, 10, 300, 2048]
+SIG_CRITICAL = [3, 11, 15, 35, 39, 7, 13, 17, 23, 27, 1, 5, 65001]
+BAD_UTF8 = [b"\xff", b"\xff\xfe", b"\xc0\x80", b"\xe0\x9f\xbf", b"\xed\xa0\x80", b"\xf4\x90\x80\x80", b"ab\xc3", b"\x80"]
+ODD_UINT = [b"\x00", b"\x00\x01", b"\x00\x00\x00", b"\x80\x00\x00\x00\x00\x00\x00\x00\x01", b"\x00" * 9]
 
 CSM0 = o_frame(225, b"", b"")
 
@@ -85,10 +97,25 @@ def gen_value(rng, num, n=None):
     return bytes(rng.randrange(256) for _ in range(n))
 
 
+def gen_sig_value(rng, num):
+    """value of an option in a signalling message: well-formed or ill-formed for the format the
+    same number has in requests and responses -- which has no say there"""
+    r = rng.random()
+    if r < 0.4:
+        if num in KNOWN_STR:
+            return rng.choice(BAD_UTF8)
+        if num in KNOWN_UINT:
+            return rng.choice(ODD_UINT)
+        return bytes(rng.randrange(256) for _ in range(rng.choice([1, 2, 3, 9])))
+    if r < 0.5:
+        return rng.choice(BAD_UTF8 + ODD_UINT)
+    return gen_value(rng, num)
+
+
 def gen_opts(rng, signalling=False, critical_ok=False):
     r = rng.random()
     if signalling:
-        pool = [2, 4, 4, 6, 10, 300] + ([1, 3, 5, 65001] if critical_ok else [])
+        pool = [2, 4, 4, 6, 10, 300] + SIG_ELECTIVE + (SIG_CRITICAL if critical_ok else [])
         k = rng.choice([0, 0, 1, 1, 2, 3])
     else:
         pool = KNOWN_STR + KNOWN_UINT + KNOWN_OPAQUE + (UNKNOWN if r < 0.3 else [])
@@ -101,6 +128,8 @@ def gen_opts(rng, signalling=False, critical_ok=False):
             out.append((n, v.to_bytes((v.bit_length() + 7) // 8, "big")))
         elif signalling and n == 4:
             out.append((n, b""))
+        elif signalling:
+            out.append((n, gen_sig_value(rng, n)))
         else:
             out.append((n, gen_value(rng, n)))
     return out
@@ -171,10 +200,10 @@ def gen_malformed(rng, maxsize):
         return o_frame(code, token, bytes([0xB5]) + b"ab"), "opt-truncated"
     if k == 3:      # extended delta/length truncated
         return o_frame(code, token, rng.choice([b"\xd0", b"\xe0\x01", b"\x0d", b"\x0e\x00"])), "ext-truncated"
-    if k == 4:      # invalid UTF-8 in a string option
-        bad = rng.choice([b"\xff", b"\xc0\x80", b"\xe0\x9f\xbf", b"\xed\xa0\x80", b"\xf4\x90\x80\x80", b"ab\xc3", b"\x80"])
+    if k == 4:      # invalid UTF-8 in a string option of a request, response or code-0.00 frame
+        bad = rng.choice(BAD_UTF8)
         num = rng.choice(KNOWN_STR)
-        return o_frame(code, token, sim.o_options([(num, bad)])), "bad-utf8"
+        return o_frame(rng.choice([1, 2, 69, 0]), token, sim.o_options([(num, bad)])), "bad-utf8"
     if k == 5:      # announces more than the local maximum
         over = maxsize + rng.choice([1, 1, 2, 100, 70000])
         for extra in (0, 1, 2, 4):
@@ -333,6 +362,52 @@ def boundary_sessions(env):
                     cases.append(session_case(DEFAULT_MAX, [c for c in (pre, sig, get + ping) if c], tag="signalling"))
                     if len(stream) <= 24 and token == b"":
                         cases.append(session_case(DEFAULT_MAX, [stream[i:i + 1] for i in range(len(stream))], tag="signalling"))
+    # (g) RFC 8323 5.2: option numbers of signalling messages are specific to the code.  Every number
+    # that has a string / integer format in requests and responses (+ opaque and unknown ones), with
+    # values that are well-formed and ill-formed for that format, in every known signalling message,
+    # as first message and after a CSM.  Elective: ignored (Ping -> Pong, CSM accepted, Release ->
+    # pending failed); critical: Abort and close as for any unknown critical option.
+    table_nums = sorted(set(KNOWN_STR + KNOWN_UINT + [1, 4, 5, 9, 10, 18, 21, 252, 300, 2049]))
+    table_vals = [b"", b"ok", b"\xc3\xa9"] + BAD_UTF8[:5] + ODD_UINT[:4]
+    for code in (225, 226, 227, 228, 229):
+        for num in table_nums:
+            for val in table_vals:
+                sig = o_frame(code, b"\x51", o_body([(num, val)], b""))
+                for pre in (b"", CSM0):
+                    stream = pre + sig + get + ping
+                    cases.append(session_case(DEFAULT_MAX, [stream], tag="signalling-option-table"))
+                    if val in (b"\xff\xfe", b"\x00\x01"):
+                        cases.append(session_case(DEFAULT_MAX, [c for c in (pre + sig[:3], sig[3:] + get, ping) if c],
+                                                  tag="signalling-option-table"))
+    # two such options in one message, known ones around them, and a payload behind
+    for code in (225, 226, 228):
+        for opts in ([(2, b"\x04\x00"), (8, b"\xff\xfe"), (20, b"\x80")], [(4, b""), (8, b"\xff"), (12, b"\x00\x00")],
+                     [(8, b"\xc0\x80"), (8, b"fine"), (60, b"\x00" * 9)], [(20, b"\xff"), (35, b"\xff")], [(8, b"\xff"), (11, b"\xff")]):
+            sig = o_frame(code, b"", o_body(opts, b"diag"))
+            for chunks in ([CSM0 + sig + get + ping], [CSM0, sig[:4], sig[4:], get + ping]):
+                cases.append(session_case(DEFAULT_MAX, chunks, tag="signalling-option-table"))
+    # (h) empty messages (code 0.00) are ignored wherever they are: ahead of the peer's CSM, between
+    # and behind other messages; a code-0.00 frame with a token, a payload or options is no different
+    empty = o_frame(0, b"", b"")
+    empties = [empty, o_frame(0, b"\x01", b""), o_frame(0, b"\x01\x02\x03\x04\x05\x06\x07\x08", b"\xffpayload"),
+               o_frame(0, b"", o_body([(11, b"a"), (12, b"")], b"")), o_frame(0, b"", o_body([(2049, b"zz")], b"x" * 13))]
+    for e in empties:
+        for k in (1, 2, 3):
+            for tail in (CSM0 + get + e + ping, CSM0 + e + get, CSM0, get, ping + CSM0 + get, o_frame(228, b"", b""),
+                         o_frame(225, b"", o_body([(1, b"")], b"")), b"\x10\x01\xf0", b""):
+                stream = e * k + tail
+                cases.append(session_case(DEFAULT_MAX, [stream], tag="empty-before-csm"))
+                cases.append(session_case(DEFAULT_MAX, [c for c in (e * k, tail) if c], tag="empty-before-csm"))
+                if len(stream) <= 40:
+                    cases.append(session_case(DEFAULT_MAX, [stream[i:i + 1] for i in range(len(stream))], tag="empty-before-csm"))
+                if e is empty and k == 1:
+                    for cut in range(1, len(stream)):
+                        cases.append(session_case(DEFAULT_MAX, [stream[:cut], stream[cut:]], tag="empty-before-csm"))
+    # a code-0.00 frame that cannot be parsed is an unparsable frame like any other
+    for pre in (b"", CSM0):
+        for bad in (o_frame(0, b"", sim.o_options([(11, b"\xff")])), o_frame(0, b"", b"\xf0"), bytes([0x09, 0]) + bytes(9)):
+            cases.append(session_case(DEFAULT_MAX, [pre + bad + get], tag="empty-before-csm"))
+            cases.append(session_case(DEFAULT_MAX, [c for c in (pre, bad, get) if c], tag="empty-before-csm"))
     # signalling with payload (diagnostic) and a Ping across a length boundary
     for code in (226, 228, 229):
         for L in (12, 13, 14):
@@ -429,6 +504,12 @@ def exhaustive_sessions(env):
         CSM0 + o_frame(225, b"", o_body([(4, b"")], b"")) + resp,
         CSM0 + o_frame(1, b"", o_body([(11, b"a")], b"")) + resp,
         CSM0 + o_frame(226, b"", o_body([(2, b"e")], b"")) + get1 + get1,      # elective option on a Ping
+        CSM0 + b"\x20\xe2\x81\xff" + get1,              # Ping with elective option 8 = ff (no Location-Path there)
+        b"\x30\xe1\xd1\x07\xff" + get1 + ping,          # CSM with elective option 20 = ff, request, Ping
+        CSM0 + b"\x20\xe2\xb1\xff" + get1,              # Ping with critical option 11 = ff
+        empty + CSM0 + get1 + ping,                       # empty ahead of the CSM, then request and Ping
+        empty + empty + get1 + CSM0,                      # empties, then a request without CSM
+        empty + ping + empty + CSM0 + get1,               # empty, Ping, empty, CSM, request
     ]
     cases = []
     global N_EXHAUSTIVE
@@ -456,6 +537,9 @@ def random_sessions(env, n):
         malformed_at = rng.randrange(nmsg + 1) if rng.random() < 0.25 else None
         have_csm = rng.random() < 0.96
         parts = []
+        if rng.random() < 0.15:
+            # empty messages can always be sent: also ahead of the CSM
+            parts.extend(o_frame(0, gen_token(rng) if rng.random() < 0.3 else b"", b"") for _ in range(rng.choice([1, 1, 2, 3])))
         if have_csm:
             parts.append(o_frame(225, b"", o_body(gen_opts(rng, signalling=True, critical_ok=rng.random() < 0.05), b"")))
         for i in range(nmsg):
@@ -489,6 +573,52 @@ def big_sessions(env):
     return cases
 
 
+def stream_features(stream, maxsize):
+    """what the audit-E classes of input a stream contains (for the distribution gates), read with
+    the oracle's framer up to the first frame that is structurally broken or oversized"""
+    feats = set()
+    pos = 0
+    csm = False
+    while True:
+        h = sim.o_header(stream, pos)
+        if h is None:
+            break
+        off, tkl, bl = h
+        total = off + tkl + bl
+        if total > maxsize or pos + total > len(stream) or tkl > 8:
+            break
+        frame = stream[pos:pos + total]
+        pos += total
+        code = frame[off - 1]
+        try:
+            opts, _ = sim.o_parse_body(frame[off + tkl:], signalling=True)
+        except sim.OUnparsable:
+            break
+        if code >= 224:
+            for n, v in opts:
+                ill = False
+                if n in sim.O_STRING:
+                    try:
+                        v.decode("utf-8")
+                    except UnicodeDecodeError:
+                        ill = True
+                elif n in sim.O_UINT:
+                    ill = v[:1] == b"\0" or len(v) > 8
+                else:
+                    continue
+                feats.add("sig-opt:%s:%s:%s" % ("str" if n in sim.O_STRING else "uint", "critical" if n % 2 else "elective",
+                                                "ill-formed" if ill else "well-formed"))
+            if any(n % 2 for n, _ in opts) or code in (228, 229) or not 225 <= code <= 229:
+                break                                   # the connection ends here
+            if code == 225:
+                csm = True
+        elif code == 0:
+            feats.add("empty:" + ("after-csm" if csm else "before-csm"))
+        elif not csm:
+            break
+    return feats
+
+
 # --------------------------------------------------------------------------- running the code
 
 def run_F(tcp, case):
@@ -509,9 +639,15 @@ def judge_F(aiocoap, case, events, stream):
 
 def build_message(aiocoap, code, token, opts, payload):
     from aiocoap.numbers.optionnumbers import OptionNumber
+    from aiocoap.optiontypes import OpaqueOption
     msg = aiocoap.Message(code=code, _token=token, payload=payload)
     for n, v in opts:
-        msg.opt.add_option(OptionNumber(n).create_option(decode=v))
+        if code >= 224:
+            # the way rfc8323common builds its own signalling messages: explicit option objects,
+            # not the formats registered for requests and responses
+            msg.opt.add_option(OpaqueOption(OptionNumber(n), v))
+        else:
+            msg.opt.add_option(OptionNumber(n).create_option(decode=v))
     return msg
 
 
@@ -590,6 +726,8 @@ def p_cases(env):
                 mk(code, b"", [(6, b"\x01"), (12, b"")] + nr_opt(v) + [(292, b"rt")], b"p" * 13, client, "no-response-table")
     for _ in range(env.scale(400, 6000)):
         code, token, opts, payload = gen_message(rng, rng.choice(BODY_BOUNDS[:10]) if rng.random() < 0.3 else None)
+        if code >= 224:
+            opts = gen_opts(rng)                    # (signalling messages draw other option values)
         if code >= 224 or rng.random() < 0.5:
             code = rng.choice(req_codes + resp_codes)
         opts = [o for o in opts if o[0] != 258]
@@ -675,6 +813,14 @@ def d_cases(env):
     for n in sorted(set(KNOWN_STR + KNOWN_UINT + KNOWN_OPAQUE + UNKNOWN + list(range(0, 64)))):
         for v in (b"", b"\x00", b"\x00\x01", b"\x01\x00", b"\xff", b"abc", b"\x00\x00\x00", b"\x80\x00\x00\x00\x00\x00\x00\x00\x01"):
             cases.append((o_frame(2, b"\x01", sim.o_options([(n, v)]) + b"\xffp"), "format-table"))
+    # the same tables in signalling messages, where those formats do not apply
+    for v in utf8_table():
+        cases.append((o_frame(226, b"", sim.o_options([(8, v)])), "signalling-utf8"))
+        cases.append((o_frame(225, b"", sim.o_options([(11, v + b"a")])), "signalling-utf8"))
+    for code in (224, 225, 226, 227, 228, 229, 255):
+        for n in sorted(set(KNOWN_STR + KNOWN_UINT + KNOWN_OPAQUE + UNKNOWN + list(range(0, 64)))):
+            for v in (b"", b"\x00", b"\x00\x01", b"\xff", b"\xff\xfe", b"abc", b"\x80\x00\x00\x00\x00\x00\x00\x00\x01"):
+                cases.append((o_frame(code, b"\x01", sim.o_options([(n, v)]) + b"\xffp"), "signalling-format-table"))
     for tkl in range(16):
         cases.append((bytes([tkl, 1]) + bytes(tkl), "tkl"))
     for _ in range(env.scale(3000, 40000)):
@@ -834,6 +980,8 @@ def run(env, rep):
         rep.count("F:tag=" + case.get("tag", "corpus"))
         rep.count("F:chunks=%s" % ("1" if len(case["chunks"]) == 1 else "2-4" if len(case["chunks"]) <= 4 else "5-16" if len(case["chunks"]) <= 16 else ">16"))
         rep.count("F:stream=%s" % ("<=11" if len(stream) <= 11 else "<=300" if len(stream) <= 300 else "<=66000" if len(stream) <= 66000 else ">66000"))
+        for feat in stream_features(stream, case["maxsize"]):
+            rep.count("F:" + feat)
         for e in events[1:]:
             if e[0] == "W":
                 fr = sim.o_single_frame(e[1])
@@ -860,7 +1008,10 @@ def run(env, rep):
         for need in ("F:event=Q", "F:event=R", "F:write=pong", "F:fail=released", "F:fail=aborted",
                      "F:abort=Overly large message announced", "F:abort=Failed to parse message",
                      "F:abort=No CSM received", "F:abort=Option not supported", "F:abort=Unknown critical option",
-                     "F:abort=Unknown signalling code"):
+                     "F:abort=Unknown signalling code", "F:empty:before-csm", "F:empty:after-csm",
+                     "F:tag=signalling-option-table", "F:tag=empty-before-csm") \
+                + tuple("F:sig-opt:%s:%s:%s" % (f, c, w) for f in ("str", "uint") for c in ("elective", "critical")
+                        for w in ("well-formed", "ill-formed")):
             if not rep.hist.get(need):
                 raise HarnessError("generator never reached " + need)
 
@@ -914,11 +1065,13 @@ def run(env, rep):
     lines, impl = [], []
     for fr, tag in ds:
         lines.append("C15 D " + spec(fr))
+        fields = None
         try:
             with warnings.catch_warnings():
                 warnings.simplefilter("ignore")
                 m = tcp._decode_message(fr)
-            r = sim.render_fields(*sim.msg_fields(m))
+            fields = sim.msg_fields(m)
+            r = sim.render_fields(*fields)
         except aiocoap.error.UnparsableMessage:
             r = "unparsable"
         except Exception as e:
@@ -927,7 +1080,7 @@ def run(env, rep):
         case = {"kind": "D", "frame": spec(fr)}
         rep.case(case, nontrivial=r != "unparsable", sample_every=3000)
         rep.count("D:%s:%s" % (tag, "unparsable" if r == "unparsable" else "exception" if r.startswith("exception") else "ok"))
-        v = judge_D(fr, r)
+        v = judge_D(fr, r, fields)
         if v:
             rep.oracle_fail(case, v, key="tcp-decode:" + v.split(":")[0])
     compare(env, rep, ds, lines, impl, what="decode_message")
@@ -977,8 +1130,10 @@ def run(env, rep):
     glue_sessions(env, aiocoap, tcp, rep)
 
 
-def judge_D(fr, r):
-    """independent reading of one complete frame"""
+def judge_D(fr, r, fields=None):
+    """independent reading of one complete frame; with `fields` (what the implementation decoded)
+    also: identical code, token, options and payload -- option values of a signalling frame byte
+    for byte, those of other frames as the value their format denotes"""
     h = sim.o_header(fr, 0)
     off, tkl, bl = h
     if r.startswith("exception"):
@@ -986,11 +1141,19 @@ def judge_D(fr, r):
     try:
         if tkl > 8:
             raise sim.OUnparsable("tkl")
-        opts, payload = sim.o_parse_body(fr[off + tkl:])
+        opts, payload = sim.o_parse_body(fr[off + tkl:], signalling=fr[off - 1] >= 224)
     except sim.OUnparsable:
         return "" if r == "unparsable" else "accepted: unparsable frame %s decoded as %s" % (fr.hex()[:80], r)
     if r == "unparsable":
         return "rejected: well-formed frame %s reported unparsable" % fr.hex()[:80]
+    if fields is not None:
+        code, token = fr[off - 1], fr[off:off + tkl]
+        c2, t2, o2, p2 = fields
+        same = (c2 == code and t2 == token and p2 == payload and len(o2) == len(opts)
+                and all(a[0] == b[0] and (a[1] == b[1] if code >= 224 else sim.o_same_value(a[0], a[1], b[1]))
+                        for a, b in zip(o2, opts)))
+        if not same:
+            return "mismatch: frame %s decoded as %s, it says %s" % (fr.hex()[:80], r, sim.render_fields(code, token, opts, payload))
     return ""
 
 
@@ -1034,15 +1197,17 @@ def replay(env, case):
         return "" if bytes([nib << 4]) + ext == _hdr(case["n"], 0) else "_encode_length(%d) = (%d, %s)" % (case["n"], nib, ext.hex())
     if k == "D":
         fr = unspec(case["frame"])
+        fields = None
         try:
             with warnings.catch_warnings():
                 warnings.simplefilter("ignore")
-                r = sim.render_fields(*sim.msg_fields(tcp._decode_message(fr)))
+                fields = sim.msg_fields(tcp._decode_message(fr))
+            r = sim.render_fields(*fields)
         except aiocoap.error.UnparsableMessage:
             r = "unparsable"
         except Exception as e:
             r = "exception:" + type(e).__name__
-        return judge_D(fr, r)
+        return judge_D(fr, r, fields)
     if k == "S":
         r, fields, blob = run_S(aiocoap, tcp, case)
         return judge_S(fields, r, blob)
